@@ -18,7 +18,7 @@ from qucumber.utils import cplx  # noqa: E402
 FILES = ["qucumber/utils/cplx.py"]
 RULE = ("case = (function, operand shapes incl. the leading complex axis, operand values, dtype tags, out= mode, einsum equation + flags). "
         "Exact tier: entries are Gaussian integers with parts in [-4,4]; tensor ranks 0-4, axis lengths 1-3, broadcast partners derived from the "
-        "base shape (suffix, size-1 axes, scalar), out in {None, fresh, x, y, fresh float32}, the library constant cplx.I (float32) as x or y. "
+        "base shape (suffix, size-1 axes, scalar), out in {None, fresh, fresh float32, x, y, wrong-shaped}, the library constant cplx.I (float32) as x or y. "
         "Tolerance tier: N(0,1)*scale entries. Malformed stream: non-broadcastable pairs, wrong ranks, contraction mismatches, bad equations, "
         "0-d / short leading axis. non-trivial iff every complex operand has an entry with non-zero real AND imaginary part (so a sign or "
         "conjugation error changes the result) and the call is not a pure error case; distinct by hash of the whole case")
@@ -27,7 +27,8 @@ THEOREMS = {
     "make_complex_np": "C15_ofNdarray_numpy",
     "real": "C15_real_imag, C15_rejects_real_imag", "imag": "C15_real_imag, C15_rejects_real_imag",
     "numpy": "C15_numpy, C15_ofNdarray_numpy",
-    "scalar_mult": "C15_scalar_mult, C15_scalar_mult_complex, C15_scalar_mult_out, C15_toLike, C15_rejects_scalar_mult_alias, "
+    "scalar_mult": "C15_scalar_mult, C15_scalar_mult_complex, C15_scalar_mult_out, C15_scalar_mult_out_sound, C15_toLike, "
+                   "C15_rejects_scalar_mult_alias, C15_scalar_mult_alias_iff, C15_rejects_scalar_mult_out_shape, "
                    "C15_rejects_scalar_mult_shape, C15_broadcast_shape, C15_broadcast_index",
     "elementwise_mult": "C15_elementwise_mult, C15_scalar_mult, C15_rejects_scalar_mult_shape",
     "matmul": "C15_matmul_mat_mat, C15_matmul_mat_vec, C15_matmul_vec_mat, C15_matmul_vec_vec, C15_matmul_batched, "
@@ -50,7 +51,6 @@ THEOREMS = {
 REQUIRED_THEOREMS = sorted({t.strip() for v in THEOREMS.values() for t in v.split(",")} | {"C15_dec_ops", "C15_dec_sums"})
 EXTRA_TRUSTED = [
     "C15: object identity and dtype of torch tensors are modelled by tags (Obj.id, Obj.dtype); the harness assigns the tags from Python `is`",
-    "C15: an `out=` buffer of the WRONG shape is outside the model (torch resizes views of it; see notes/C15.md)",
 ]
 RING_FNS = ["make_complex", "make_complex_np", "real", "imag", "numpy", "scalar_mult", "elementwise_mult", "matmul", "inner_prod",
             "outer_prod", "einsum", "conjugate", "conj", "kronecker_prod", "norm_sqr"]
@@ -236,11 +236,13 @@ def oracle_value(case):
     # from here on operands are complex tensors; malformed leading axes are not generated except for the accessors
     if fn in ("scalar_mult", "elementwise_mult"):
         if fn == "scalar_mult" and case.get("out") in ("x", "y"):
-            # `out is y` is tested AFTER y = y.to(x): a y of another dtype has been replaced by a cast copy
-            if case["out"] == "x" or x["dtype"] == y["dtype"] or case.get("same"):
-                return ("err", "RuntimeError")
-        if np_broadcast(sx[1:], sy[1:]) is None:
+            # `out is x or out is y` is tested on the caller's objects, before y = y.to(x): whatever the dtypes
             return ("err", "RuntimeError")
+        rs = np_broadcast(sx[1:], sy[1:])
+        if rs is None:
+            return ("err", "RuntimeError")
+        if fn == "scalar_mult" and case.get("out") == "shape" and list(case["out_shape"]) != [2] + rs:
+            return ("err", "ValueError")
         return ("c", decode(x) * decode(y))
     if fn == "matmul":
         if len(sx) < 2 or len(sy) < 2:
@@ -308,8 +310,20 @@ def oracle_value(case):
 
 
 # ------------------------------------------------------------------ running the implementation
+I_PRISTINE = cplx.I.clone()
+
+
 def run_impl(case):
     """returns (canonical result | {'error': kind}, extra) where extra carries identity information"""
+    res, extra = _run_impl(case)
+    if case.get("useI"):
+        # the library constant must never be written; restore it so that one failure cannot contaminate later cases
+        extra["I_intact"] = bool(torch.equal(cplx.I, I_PRISTINE))
+        cplx.I.copy_(I_PRISTINE)
+    return res, extra
+
+
+def _run_impl(case):
     fn = case["fn"]
     extra = {}
     try:
@@ -338,8 +352,15 @@ def run_impl(case):
             elif mode in ("fresh", "fresh32"):
                 os_ = [2] + np_broadcast(case["x"]["shape"][1:], case["y"]["shape"][1:])
                 out = torch.full(os_, 7.0, dtype=torch.float32 if mode == "fresh32" else torch.double)
-            r = cplx.scalar_mult(x, y, out=out)
-            extra["id"] = ID_OUT if (mode in ("fresh", "fresh32") and r is out) else (
+            elif mode == "shape":
+                out = torch.full(case["out_shape"], 7.0, dtype=torch.float32 if case.get("out_dtype") == "f32" else torch.double)
+            keep = out.clone() if mode == "shape" else None
+            try:
+                r = cplx.scalar_mult(x, y, out=out)
+            finally:
+                # a rejected buffer must not have been written
+                extra["out_untouched"] = None if keep is None else bool(torch.equal(keep, out) and list(out.shape) == list(keep.shape))
+            extra["id"] = ID_OUT if (mode in ("fresh", "fresh32", "shape") and r is out) else (
                 ID_X if r is x else (ID_Y if r is y else ID_NEW))
         elif fn == "einsum":
             r = cplx.einsum(case["eq"], x, y, real_part=case["rp"], imag_part=case["ip"])
@@ -384,6 +405,9 @@ def run_model(ctx, case):
         elif mode in ("fresh", "fresh32"):
             os_ = [2] + np_broadcast(case["x"]["shape"][1:], case["y"]["shape"][1:])
             req["out"] = tj(T(os_, [7.0] * numel(os_), "f32" if mode == "fresh32" else "f64"), ID_OUT)
+        elif mode == "shape":
+            os_ = case["out_shape"]
+            req["out"] = tj(T(os_, [7.0] * numel(os_), case.get("out_dtype", "f64")), ID_OUT)
         req["fresh_cast"] = ID_CAST
         req["fresh_out"] = ID_NEW
     else:
@@ -419,8 +443,8 @@ def result_dtype_expected(case):
     """dtype of the returned tensor as the kernel defines it (`y.to(x)`: x's dtype; out= keeps the buffer's dtype)"""
     if case["fn"] == "scalar_mult" and case.get("out") in ("fresh", "fresh32"):
         return "f32" if case["out"] == "fresh32" else "f64"
-    if case["fn"] == "scalar_mult" and case.get("out") == "y" and not case.get("same"):
-        return case["y"]["dtype"]
+    if case["fn"] == "scalar_mult" and case.get("out") == "shape":
+        return case.get("out_dtype", "f64")
     return case["x"]["dtype"]
 
 
@@ -476,6 +500,11 @@ def one_case(ctx, case):
 
     # ---------------- the property itself on the implementation
     want = oracle_value(case)
+    if iextra.get("I_intact") is not None:
+        ctx.oracle("cplx.I not overwritten", iextra["I_intact"], case, sig=f"{fn}/cplx.I-intact", theorem="C15_rejects_scalar_mult_alias")
+    if iextra.get("out_untouched") is not None and is_err:
+        ctx.oracle(f"{fn} rejected out= buffer not written", iextra["out_untouched"], case, sig=f"{fn}/out-untouched",
+                   theorem="C15_rejects_scalar_mult_out_shape")
     if want[0] == "err":
         ctx.oracle(f"{fn} rejects", is_err and impl["error"] == want[1], case,
                    detail={"impl": impl if is_err else {"shape": impl.get("shape")}, "expected_error": want[1]},
@@ -733,17 +762,63 @@ def gen_malformed(ctx, n_scale):
         if mode == "same_x":
             yield {"fn": "scalar_mult", "num": num, "x": x, "y": x, "same": True, "out": "x"}
         elif mode == "y_f32":
-            # x float32, y float64, out = y: `y.to(x)` made a copy, so `out is y` is False and the product is written into y
+            # x float32, y float64, out = y: must be rejected although `y.to(x)` makes a copy (defect fixed by b571e19)
             x["dtype"] = "f32"
             yield {"fn": "scalar_mult", "num": num, "x": x, "y": rand_cplx(rng, s, num), "out": "y"}
         elif mode == "x_f32":
             x["dtype"] = "f32"
             yield {"fn": "scalar_mult", "num": num, "x": x, "y": rand_cplx(rng, s, num), "out": "x"}
         elif mode == "y_is_f32":
-            # x float64, y float32, out = y (the float32 buffer): again no alias error, product written into y
+            # x float64, y float32, out = y (the float32 buffer): rejected as well
             yield {"fn": "scalar_mult", "num": num, "x": x, "y": rand_cplx(rng, s, num, dtype="f32"), "out": "y"}
         else:
             yield {"fn": "scalar_mult", "num": num, "x": x, "y": rand_cplx(rng, s, num), "out": mode}
+    for _ in R(40):
+        # the library constant as an aliasing buffer: scalar_mult(z, cplx.I, out=cplx.I) must not overwrite it
+        z = rand_cplx(rng, rng.choice([[], [], [2], [1]]), num)
+        if rng.random() < 0.6:
+            yield {"fn": "scalar_mult", "num": num, "x": z, "y": dict(I_T), "useI": "y", "out": "y"}
+        else:
+            yield {"fn": "scalar_mult", "num": num, "x": dict(I_T), "y": z, "useI": "x", "out": "x"}
+    for _ in R(160):
+        # out= buffers that do not have the shape of the result (fix 89aee63): broadcastable-but-different, larger, smaller,
+        # wrong rank, missing complex axis — and a few of exactly the right shape through the same code path
+        sx_ = rand_shape(rng)
+        sy_ = bcast_partner(rng, sx_)
+        if rng.random() < 0.5:
+            sx_, sy_ = sy_, sx_
+        rs = np_broadcast(sx_, sy_)
+        full = [2] + rs
+        kind = rng.choice(["ones", "prepend1", "larger", "smaller", "drop_axis", "add_axis", "no_cplx", "operand", "transposed", "right"])
+        o = list(full)
+        if kind == "ones" and any(d > 1 for d in rs):
+            k = rng.choice([i for i, d in enumerate(rs) if d > 1])
+            o[1 + k] = 1
+        elif kind == "prepend1":
+            o = [2, 1] + rs
+        elif kind == "larger":
+            k = rng.randrange(len(o))
+            o[k] += 1
+        elif kind == "smaller" and any(d > 1 for d in rs):
+            k = rng.choice([i for i, d in enumerate(rs) if d > 1])
+            o[1 + k] -= 1
+        elif kind == "drop_axis" and rs:
+            o = [2] + rs[1:]
+        elif kind == "add_axis":
+            o = full + [rng.choice([1, 2])]
+        elif kind == "no_cplx":
+            o = list(rs) if rs else [1]
+        elif kind == "operand":
+            o = [2] + list(sx_ if sx_ != rs else sy_)
+        elif kind == "transposed" and len(rs) >= 2:
+            o = [2] + rs[::-1]
+        ctx.count(f"out_shape_kind={kind}")
+        ctx.count("out_shape=" + ("right" if o == full else "wrong"))
+        case = {"fn": "scalar_mult", "num": num, "x": rand_cplx(rng, sx_, num), "y": rand_cplx(rng, sy_, num), "out": "shape",
+                "out_shape": o, "out_dtype": rng.choice(["f64", "f64", "f32"])}
+        if rng.random() < 0.2:
+            (case["x"] if rng.random() < 0.5 else case["y"])["dtype"] = "f32"
+        yield case
     for _ in R(40):
         s = rand_shape(rng, rank=rng.randint(1, 3))
         t = clash(s) if rng.random() < 0.6 else s[1:] + [s[0]] + [2]
